@@ -529,7 +529,15 @@ def r112_notify_dispatch(ctx):
                           for k_ in prog.mro(c) if k_ in prog.classes for m_ in prog.classes[k_].methods.values() for x in ast.walk(m_))
             rebinds = sum(1 for k_ in prog.mro(c) if k_ in prog.classes for m_ in prog.classes[k_].methods.values() for x in ast.walk(m_)
                           if isinstance(x, ast.Attribute) and isinstance(x.ctx, ast.Store) and x.attr == '_event_types' and is_self_attr(x))
-            native_member = bool(sets_) and isinstance(sets_[-1].value, ast.Set) and 'StatEvents.TIMESTAMP_DATA_EVENT' in [unparse(e_) for e_ in sets_[-1].value.elts] \
+            v0 = sets_[-1].value if sets_ else None
+            if isinstance(v0, ast.Call) and isinstance(v0.func, ast.Name) and v0.func.id in ('set', 'frozenset') and len(v0.args) == 1 and isinstance(v0.args[0], ast.Attribute) \
+                    and unparse(v0.args[0].value) in ('self', 'cls', 'type(self)', c):
+                for k_ in prog.mro(c):
+                    kc_ = prog.classes.get(k_)
+                    if kc_ is not None and v0.args[0].attr in kc_.assigns:
+                        v0 = kc_.assigns[v0.args[0].attr]
+                        break
+            native_member = isinstance(v0, ast.Set) and 'StatEvents.TIMESTAMP_DATA_EVENT' in [unparse(e_) for e_ in v0.elts] \
                 and not shrinks and rebinds == len(sets_)
         for case, expected in cases.items():
             env = {('bool', f'{ev}.event_type in self._event_types'): case == 'data' or (case == 'native' and native_member),
@@ -607,6 +615,21 @@ def r112_notify_dispatch(ctx):
                 and any(is_self_attr(t, '_event_types') for t in (a.targets if isinstance(a, ast.Assign) else [a.target]))]
         if sets and c in native:
             v = sets[-1].value
+            # `set(self.NAME)` / `self.NAME.copy()` / `set(Cls.NAME)` with NAME a class-level set display: its members
+            inner = None
+            if isinstance(v, ast.Call) and isinstance(v.func, ast.Name) and v.func.id in ('set', 'frozenset') and len(v.args) == 1 and isinstance(v.args[0], ast.Attribute):
+                inner = v.args[0]
+            elif isinstance(v, ast.Call) and isinstance(v.func, ast.Attribute) and v.func.attr == 'copy' and not v.args and isinstance(v.func.value, ast.Attribute):
+                inner = v.func.value
+            elif isinstance(v, ast.Attribute):
+                inner = v                       # the class-level set itself (that it is shared is another rule's finding)
+            if inner is not None and unparse(inner.value) in ('self', 'cls', 'type(self)', c):
+                for k_ in prog.mro(c):
+                    kc_ = prog.classes.get(k_)
+                    if kc_ is not None and inner.attr in kc_.assigns:
+                        if isinstance(kc_.assigns[inner.attr], ast.Set):
+                            v = kc_.assigns[inner.attr]
+                        break
             got = [unparse(x) for x in v.elts] if isinstance(v, ast.Set) else None
             ok = got == [native[c]]
             ctx.ob('R11.2', f'{c}.__init__:accepted-type', ok, sample=f'{c} accepts {got} without listen_to; forwards observations as {native[c]}')
@@ -872,6 +895,25 @@ def shared_class_state(ctx, rule, class_names, consequence):
                         stores = [a for a in body_of(fn) if isinstance(a, (ast.Assign, ast.AnnAssign)) and
                                   any(is_self_attr(t, name) for t in (a.targets if isinstance(a, ast.Assign) else [a.target]))]
                         rebinds_in_init = bool(stores)            # top-level statement of the constructor: on every normal path
+            # a field bound to the class-level container itself (`self.f = self.NAME`, no copy) is another name for it
+            for sub in prog.subclasses(cname, strict=False):
+                sci = prog.classes[sub]
+                for mname, fn in list(sci.methods.items()) + list(sci.setters.items()):
+                    for a in walk_shallow(fn):
+                        if not isinstance(a, (ast.Assign, ast.AnnAssign)) or getattr(a, 'value', None) is None:
+                            continue
+                        v = a.value
+                        if isinstance(v, ast.Attribute) and v.attr == name and unparse(v.value) in ('self', 'cls', 'type(self)', 'self.__class__', cname, sub):
+                            for t in (a.targets if isinstance(a, ast.Assign) else [a.target]):
+                                if is_self_attr(t) and t.attr != name:
+                                    am = instance_mutation_sites(prog, cname, t.attr)
+                                    ctx.ob(rule, f'{cname}.{name}:alias:{t.attr}', not am,
+                                           sample=f'{sub}.{mname}: self.{t.attr} is bound to the class-level {name} itself; mutated through instances at {len(am)} site(s)')
+                                    if am:
+                                        s2, m2, x2 = am[0]
+                                        ctx.finding(rule, f'{cname}.{name}:shared-through-{t.attr}', sci, a,
+                                                    f'`self.{t.attr}` is bound to the class-level container `{name}` itself (no copy) in {sub}.{mname} and changed in place '
+                                                    f'(`{short(x2, 50)}` in {s2}.{m2}): all {cname} objects (and the class) share it, so {consequence}', where=f'{sub}.{mname}')
             ok = not muts or rebinds_in_init
             ctx.ob(rule, f'{cname}.{name}', ok, sample=f'{cname}.{name} = {short(value, 30)} (class body): mutated through instances at {len(muts)} site(s); re-bound per instance in __init__: {rebinds_in_init}')
             if not ok:
